@@ -269,7 +269,7 @@ func (w *emuWorld) hook(p *sx.Path, fn *ssa.Function, args []sx.Val, site ssa.In
 					}
 					last := s0 == n-1+1 && e0 == n // never: handled by the fall-through below
 					_ = last
-					if p.Decide(cond) {
+					if p.DecideChecked(cond) {
 						if s0 > 0 || s0 == e0 {
 							if s0 == e0 {
 								addIv(0, n)
@@ -292,7 +292,7 @@ func (w *emuWorld) hook(p *sx.Path, fn *ssa.Function, args []sx.Val, site ssa.In
 			for i := int64(0); i <= n; i++ {
 				unk := false
 				if i < n {
-					unk = !p.Decide(w.knownAt(at(addr, i)))
+					unk = !p.DecideChecked(w.knownAt(at(addr, i)))
 				}
 				if unk && start < 0 {
 					start = i
@@ -809,7 +809,11 @@ func emuProp(id string, claim string, technique string, only func(name string) b
 					}
 				}
 				us.Bounded = "instruction words of the corpus"
-				us.MaxPaths = 100000
+				// a step explores at most a few hundred paths (the patterns of
+				// known bytes of its memory accesses); a change that
+				// multiplies them is reported instead of being explored
+				us.MaxPaths = 2500
+				us.Hooks = func(m *sx.Machine) { m.MaxExploreSecs = 240 }
 				us.OnlyObl = only
 				us.AbstractArith = true
 				us.CallHook = func(p *sx.Path, fn *ssa.Function, args []sx.Val, site ssa.Instruction) (sx.Val, bool) {
